@@ -5,13 +5,20 @@
    attempts reports itself broken rather than hanging; once the world stops changing every device returns
    to idle with no queued request that could still be served.
 
-   Proved here (model level, all inputs): routing returns only valid chains and never drops a request
-   (path_valid, request_served_or_queued_partial); in the eject-attempt automaton attempts are numbered and
-   bounded by max_eject_attempts (attempt_terminates_success_fail_or_broken), an exhausted eject can only go
-   to eject_broken, and the only phases in which a device can stay for ever are idle, broken, waiting for a
-   ball and waiting for its target (quiescent_idle_partial).  NOT proved (validated on sampled runs, see
-   NOTES.md): that the coroutines follow the automaton, that asyncio delivers the timeouts, that queued
-   requests are re-served on balldevice_balls_available, and physical delivery. *)
+   Proved here (model level, all inputs / histories):
+   * routing (Model.v, RouteLemmas.v): path_valid, request_served_or_queued (full: sound AND complete searches; the older
+     _partial statement is kept), queue_reserved (ledger never negative, every request accounted for);
+   * request / eject queues of the machine (Requests.v): requests_never_dropped_nor_double_booked, request_deque_fifo,
+     oldest_request_served_refuted (known finding request-starves-behind-self-requests);
+   * attempts (Model.v, Live.v): attempt_terminates_success_fail_or_broken, exhausted_goes_broken,
+     quiescent_idle_partial, outcomes_drive_the_automaton, attempt_bound_exact, attempt_unlimited_fair, queue_fifo,
+     fair_world_every_eject_served_or_broken (liveness under a fair world);
+   * waits and wakers of a target device (Waits.v): every_wait_has_a_waker, waits_released_when_drained,
+     incoming_balls_can_drain for the patched code; refuted with witnesses for /repo HEAD, for the code before 5520da9
+     and (IdleLoss.v) for an eject requested while an uncommanded loss is booked; idle_device_returns_to_idle_partial.
+   NOT proved (validated on recorded runs, see NOTES.md): that the coroutines follow the automaton / Waits.v /
+   IdleLoss.v, that asyncio delivers the timeouts, physical delivery.  Oracle-only: the known finding
+   dangling-eject-after-failed-path-restore (cancel_path_if_target_is does not look at queued ejects). *)
 From Common Require Import Prelude.
 From C05 Require Import Model Lemmas.
 Open Scope Z_scope.
@@ -67,3 +74,251 @@ Example route_example :
   find_path 4 [(0, [1]); (1, [100; 2]); (2, [101])] 0 101 = Some [0; 1; 2; 101].
 Proof. vm_compute. reflexivity. Qed.
 Print Assumptions route_example.
+
+(* ---------------------------------------------------------------------------------------------- *)
+(* Waiting states and their wakers (Waits.v): the device as a target, its IncomingBallsHandler, the sources blocked
+   in wait_for_ready_to_receive and its own eject blocked in wait_for_no_incoming_balls. *)
+From C05 Require Import Waits WaitsLemmas.
+
+(* For every history of calls (any order, any ball ids, any counts), in the code with both wake-ups:
+   W5  a source is blocked in wait_for_ball_count_changed only while free space <= incoming balls;
+   W3  the device's own eject is blocked on _has_no_incoming_balls only while a ball is still on the list (each such ball
+       is resolved by its arrival, by did_not_arrive of its source's eject or by its ball_missing timer: WRemove / WFire),
+       or while _run waits for the lock that the device's own eject holds (resolved by end_eject);
+   IH  _run waits for new balls only when the list is empty, watches only balls that are on the list (never an empty set),
+       and waits for the lock only while it is held. *)
+Theorem every_wait_has_a_waker :
+  forall cp c os, let s := wrun fixed_code (init cp c) os in
+    (0 < srcw s -> zlen (inc s) >= cap s - cnt s) /\
+    (outw s = true -> inc s <> [] \/ (pc s = PWaitLock /\ lock s = true)) /\
+    match pc s with
+    | PWaitHas => inc s = []
+    | PWatch w => w <> [] /\ (forall i, In i w -> In i (ids (inc s)))
+    | PWaitLock => lock s = true
+    end.
+Proof. intros cp c os s. apply winv_read. apply wrun_inv. apply init_inv. Qed.
+Print Assumptions every_wait_has_a_waker.
+
+(* ... and the wakers suffice: once every expected ball has arrived or was given up and the device is not inside its
+   own eject, the event is set, the own eject is not blocked, and a source is blocked only if the device is full *)
+Theorem waits_released_when_drained :
+  forall cp c os, let s := wrun fixed_code (init cp c) os in
+    inc s = [] -> lock s = false -> no_inc s = true /\ outw s = false /\ (0 < srcw s -> cap s <= cnt s).
+Proof. intros cp c os s. apply winv_drained. apply wrun_inv. apply init_inv. Qed.
+Print Assumptions waits_released_when_drained.
+
+(* the environment can always drain the list (fair world: every fired ball arrives or is declared lost) *)
+Theorem incoming_balls_can_drain :
+  forall c s, exists os, Forall (fun o => exists i, o = WRemove i) os /\ inc (wrun c s os) = [].
+Proof. intros c s. apply (remove_all c (length (inc s))). apply Nat.le_refl. Qed.
+Print Assumptions incoming_balls_can_drain.
+
+(* The same statement is FALSE for the code of /repo HEAD (wake-up in remove_incoming_ball only): a confirmed ball times
+   out, _run takes it off the list itself, the source keeps waiting although the device has room.
+   Reproduced on the implementation (corpus/C05/attempts.9.json, known finding
+   stuck-waiting-for-slot-of-timed-out-incoming-ball, repaired by fixes/C05-wake-source-when-incoming-ball-times-out.patch) *)
+Theorem every_wait_has_a_waker_refuted_head :
+  exists cp c os, let s := wrun head_code (init cp c) os in
+    0 < srcw s /\ zlen (inc s) < cap s - cnt s.
+Proof. exists 2, 1, [WAdd; WConfirm 0; WSrcWait; WFire 0]. vm_compute. split; reflexivity. Qed.
+Print Assumptions every_wait_has_a_waker_refuted_head.
+
+(* ... and for the code before 5520da9 (no wake-up at all when an incoming ball is removed): the recorded finding
+   stuck-waiting-for-slot-of-lost-incoming-ball *)
+Theorem every_wait_has_a_waker_refuted_before_5520da9 :
+  exists cp c os, let s := wrun old_code (init cp c) os in
+    0 < srcw s /\ zlen (inc s) < cap s - cnt s.
+Proof. exists 1, 0, [WAdd; WSrcWait; WRemove 0]. vm_compute. split; reflexivity. Qed.
+Print Assumptions every_wait_has_a_waker_refuted_before_5520da9.
+
+(* satisfiability: a source waits (justified), the ball arrives during the device's own eject (the lock is held, _run has
+   to wait), the eject ends: everything is released *)
+Example waits_example :
+  let s := wrun fixed_code (init 1 0) [WAdd; WSrcWait; WLock; WRemove 0] in
+  let s' := wstep fixed_code s WUnlock in
+  pc s = PWaitLock /\ no_inc s = false /\ srcw s = 0 /\ no_inc s' = true /\ pc s' = PWaitHas.
+Proof. vm_compute. repeat split; reflexivity. Qed.
+Print Assumptions waits_example.
+
+(* ---------------------------------------------------------------------------------------------- *)
+(* Routing, full statements (RouteLemmas.v) *)
+From C05 Require Import RouteLemmas Live LiveLemmas.
+
+(* request_served_or_queued, FULL: a request is served with a chain that starts at a device with an available ball,
+   reaches the requesting device and then the target over eject-target edges; or it is queued, and then neither the
+   device itself could serve it nor has any device upstream (any simple chain within the search depth) an available
+   ball; or it is refused, and then the target is different from the device and no route to it exists (within the
+   search depth, inner hops devices).  Never dropped. *)
+Theorem request_served_or_queued :
+  forall fuel g av d t,
+  match setup_or_queue fuel g av d t with
+  | Served p =>
+      (exists h tl, p = h :: tl /\ 0 < av h) /\
+      (exists up down, p = up ++ down /\ srcs_ok g up = true /\ last up d = d /\ up <> [] /\
+                       (t <> d -> down <> [] /\ last p d = t /\ hops_ok g (d :: down) = true) /\ (t = d -> down = []))
+  | Queued =>
+      (av d <= 0 \/ d = t) /\
+      (forall u tl, u = d :: tl -> tl <> [] -> ups_ok g u = true -> NoDup u -> (length u <= fuel)%nat -> av (last u d) <= 0)
+  | NoRoute =>
+      t <> d /\ (forall r rest, r = d :: rest -> rest <> [] -> last r d = t -> hops_ok g r = true ->
+                                 inner_devices r = true -> (length rest <= fuel)%nat -> False)
+  end.
+Proof. exact setup_or_queue_full. Qed.
+Print Assumptions request_served_or_queued.
+
+Example request_served_example :
+  setup_or_queue 4 [(0, [1]); (1, [100; 2]); (2, [101])] (fun d => if d =? 0 then 1 else 0) 2 101
+  = Served [0; 1; 2; 101] /\
+  setup_or_queue 4 [(0, [1]); (1, [100; 2]); (2, [101])] (fun d => 0) 2 101 = Queued.
+Proof. split; vm_compute; reflexivity. Qed.
+Print Assumptions request_served_example.
+
+(* queue_reserved_fifo, part 1 (reservation): whatever requests are made in whatever order, no device's available_balls
+   goes negative - a ball that was promised to one request is not given to another - and every request is accounted for
+   (chain set up, queued or refused) *)
+Theorem queue_reserved :
+  forall fuel g rs av, (forall x, 0 <= av x) ->
+  let '(av', c, q, x) := serve_requests fuel g av rs in
+  (forall y, 0 <= av' y) /\ 0 <= c /\ 0 <= q /\ 0 <= x /\ c + q + x = Z.of_nat (length rs).
+Proof. exact serve_requests_ok. Qed.
+Print Assumptions queue_reserved.
+
+Example queue_reserved_example :
+  let '(av', c, q, x) := serve_requests 4 [(0, [1]); (1, [100])] (fun d => if d =? 0 then 1 else 0) [(1, 100); (1, 100)] in
+  (av' 0, av' 100, c, q) = (0, 1, 1, 1).
+Proof. vm_compute. reflexivity. Qed.
+Print Assumptions queue_reserved_example.
+
+(* queue_reserved_fifo, part 2 (order): the ejects queued at a device are started in the order they were queued, one at
+   a time *)
+Theorem queue_fifo :
+  forall mx q world, exists n, map fst (serve_queue mx q world) = firstn n q.
+Proof. exact serve_queue_fifo. Qed.
+Print Assumptions queue_fifo.
+
+(* the device's reaction to any sequence of physical outcomes is a run of the attempt automaton (the one that is
+   tied to the implementation), ending idle / broken / waiting for the next outcome as eject_result says *)
+Theorem outcomes_drive_the_automaton :
+  forall mx, 0 <= mx -> forall outs n,
+    arun mx (mkA PWaitTarget n) (eject_events mx n outs) = Some (final_state (eject_result mx n outs)).
+Proof. exact eject_events_accepted. Qed.
+Print Assumptions outcomes_drive_the_automaton.
+
+(* attempt_terminates_success_fail_or_broken with the exact bound: with max_eject_attempts = mx > 0 a world that
+   answers mx attempts resolves the eject: success / lost report after k <= mx attempts, or eject_broken after
+   exactly mx.  (mx = 0 means "retry for ever": see the next theorem.) *)
+Theorem attempt_bound_exact :
+  forall mx outs, 0 < mx -> mx <= Z.of_nat (length outs) ->
+  exists k, 0 < k <= mx /\ (eject_result mx 0 outs = RDone k \/ (eject_result mx 0 outs = RBroken k /\ k = mx)).
+Proof. exact eject_resolves_limited. Qed.
+Print Assumptions attempt_bound_exact.
+
+Theorem attempt_unlimited_fair :
+  forall outs n, (exists o, In o outs /\ is_fail o = false) ->
+  exists pre o post, outs = pre ++ o :: post /\ forallb is_fail pre = true /\ is_fail o = false /\
+                     eject_result 0 n outs = RDone (n + Z.of_nat (length pre) + 1).
+Proof. exact eject_resolves_unlimited. Qed.
+Print Assumptions attempt_unlimited_fair.
+
+(* liveness under a fair world (DESIGN part (c)): if the world is fair to every queued eject (answers every attempt;
+   without a retry limit eventually lets a ball through or loses it), then every eject queued at the device is
+   finished in order, or the device has reported itself broken (after exactly max_eject_attempts attempts) and every
+   eject before that one is finished *)
+Theorem fair_world_every_eject_served_or_broken :
+  forall mx, 0 <= mx -> forall q world,
+  length world = length q -> Forall (fair mx) world ->
+  let res := serve_queue mx q world in
+  (map fst res = q /\ forallb (fun x => is_done (snd x)) res = true) \/
+  (exists done_ t k, res = done_ ++ [(t, RBroken k)] /\ forallb (fun x => is_done (snd x)) done_ = true /\
+                     (0 < mx -> k = mx) /\ map fst done_ ++ [t] = firstn (S (length done_)) q).
+Proof. exact serve_queue_live. Qed.
+Print Assumptions fair_world_every_eject_served_or_broken.
+
+Example fair_world_example :
+  fair 2 [OStuck; OReturn] /\ fair 0 [OStuck; OStuck; OLate] /\
+  serve_queue 2 [100; 100; 101] [[OStuck; OConfirm]; [OReturn; OStuck]; [OConfirm]]
+  = [(100, RDone 2); (100, RBroken 2)].
+Proof.
+  split; [cbn; lia|]. split; [cbn; exists OLate; split; [right; right; left; reflexivity | reflexivity]|].
+  vm_compute. reflexivity.
+Qed.
+Print Assumptions fair_world_example.
+
+(* ---------------------------------------------------------------------------------------------- *)
+(* A ball leaves an idle device uncommanded (IdleLoss.v) *)
+From C05 Require Import IdleLoss IdleLossLemmas.
+
+(* known finding stuck-after-uncommanded-ball-loss (still present in /repo): the eject is requested while
+   _handle_missing_balls waits idle_missing_ball_timeout; the chain takes the ball off available_balls, then the loss is
+   booked as well: the device waits for a ball for ever, physically empty, with available_balls = -1, and the eject is never
+   reported failed.  Replayed on the implementation by the suite "idleloss". *)
+Theorem every_wait_has_a_waker_refuted_uncommanded_loss :
+  exists k os, let s := lrun (linit k) os in
+    lo s = OWaitBall /\ phys s = 0 /\ lavail s < 0 /\ ejq s = 0%nat /\ mwait s = false.
+Proof. exists 1, [LLeak; LEject; LTimeout]. vm_compute. repeat split; reflexivity. Qed.
+Print Assumptions every_wait_has_a_waker_refuted_uncommanded_loss.
+
+(* partial (guarded by exactly that class): as long as no eject is requested while a loss is being booked, the device
+   is idle after every operation, nothing is queued, and available_balls = counted balls >= the balls physically there
+   (equal once the loss is booked) *)
+Theorem idle_device_returns_to_idle_partial :
+  forall k os, 0 <= k -> guarded (linit k) os = true ->
+  let s := lrun (linit k) os in
+  lo s = OIdle /\ ejq s = 0%nat /\ lavail s = lcnt s /\ 0 <= phys s <= lcnt s /\ (mwait s = false -> phys s = lcnt s).
+Proof. intros k os K G. apply guarded_run; [apply linit_inv; exact K | exact G]. Qed.
+Print Assumptions idle_device_returns_to_idle_partial.
+
+Example idle_loss_example :
+  guarded (linit 2) [LLeak; LTimeout; LEject; LEject] = true /\
+  idle_run (2, [LLeak; LTimeout; LEject; LEject]) = [0; 0; 0; 1] /\
+  idle_run (2, [LLeak; LEject; LTimeout]) = [0; 0; 0; 0].
+Proof. vm_compute. repeat split; reflexivity. Qed.
+Print Assumptions idle_loss_example.
+
+(* ---------------------------------------------------------------------------------------------- *)
+(* The request / eject queues of the whole machine (Requests.v) *)
+From C05 Require Import Requests RequestsLemmas.
+
+(* for every history of requests, claimed balls entering, balldevice_balls_available dispatches and ejects taken:
+   every request issued is accounted for - a chain was set up, it was refused (unknown target), or it is still in a
+   deque - and no device's available_balls is negative (no ball is promised to two requests) *)
+Theorem requests_never_dropped_nor_double_booked :
+  forall fuel g av os, (forall x, 0 <= avail_of av x) ->
+  let s := qrun fuel g (qinit av) os in
+  (forall x, 0 <= qav s x) /\
+  qchains s + qrefused s + Z.of_nat (length (qreq s)) = count_requests os.
+Proof.
+  intros fuel g av os A s. destruct (qrun_ok fuel g os (qinit av) A) as [B C]. split; [exact B|].
+  unfold acct in C. cbn in C. subst s. lia.
+Qed.
+Print Assumptions requests_never_dropped_nor_double_booked.
+
+(* queue_reserved_fifo, part 3: _source_device_balls_available takes the OLDEST request of the device and leaves the
+   others in their order *)
+Theorem request_deque_fifo :
+  forall d l t r, pop_first d l = Some (t, r) ->
+  exists a b, l = a ++ (d, t) :: b /\ r = a ++ b /\ (forall x, In x a -> fst x <> d).
+Proof. exact pop_first_spec. Qed.
+Print Assumptions request_deque_fifo.
+
+(* two requests queued while everything is empty; a claimed ball enters the trough: the older one is served first *)
+Example requests_example :
+  req_run ([(0, [1]); (1, [100])], [(0, 0); (1, 0)], [100],
+           [QRequest 1 100; QRequest 1 1; QBallAdded 0; QDispatch; QDispatch])
+  = [[0; 1]; [0; 100]; []; [1]; [1]; [0; 1; 0]].
+Proof. vm_compute. reflexivity. Qed.
+Print Assumptions requests_example.
+
+(* "when nothing is pending, the oldest request of a device cannot be served" is FALSE of the faithful model (and of
+   the code: known finding request-starves-behind-self-requests, found by the suite "queues"): every ball gives the
+   deque two tries and an unservable request goes to the back, so the third request is not tried *)
+Theorem oldest_request_served_refuted :
+  exists g av os d t rest,
+    let s := qrun (S (length g)) g (qinit av) os in
+    qpend s = 0 /\ filter (fun x => fst x =? d) (qreq s) = (d, t) :: rest /\ t <> d /\ 0 < qav s d /\
+    setup_or_queue (S (length g)) g (qav s) d t <> Queued.
+Proof.
+  exists [(0, [100])], [(0, 0)], [QRequest 0 0; QRequest 0 0; QRequest 0 100; QBallAdded 0; QDispatch], 0, 100, [(0, 0); (0, 0)].
+  vm_compute. repeat split; try reflexivity; discriminate.
+Qed.
+Print Assumptions oldest_request_served_refuted.
